@@ -266,6 +266,25 @@ def r4_gosub_pairing(ctx, rule="C05.R4"):
     ctx.require(rule, 5)
 
 
+def _touches_field(prog, fn, region, field, also=(), depth=2):
+    """Some call in `region` of fn works on the receiver's `field` (first argument), directly or in a
+    helper of the same file that the region calls (an arm moved into a private method)."""
+    pv = mir.Prov(fn.body)
+    for b, t in mir.region_calls(fn.body, region):
+        for a in t["args"][:1]:
+            o = mir.strip_refs(pv.of_operand(a))
+            if o[0] == "field" and o[2] == field:
+                return True
+        if also and mir.callee_path(t).endswith(also):
+            return True
+        g = prog.fns.get(t.get("res") or mir.callee_of(t))
+        if depth and g is not None and g.id != fn.id and g.file == fn.file:
+            whole = [b2 for b2 in range(g.body.nblocks) if not g.body.is_cleanup(b2)]
+            if _touches_field(prog, g, whole, field, also, depth - 1):
+                return True
+    return False
+
+
 def r5_register_frames(ctx, rule="C05.R5"):
     """PushRegisters..BLOCK..PopRegisters brackets can be left by user jumps inside the block;
     the Jump arm of the VM must then unwind register_stack (it does not)."""
@@ -274,17 +293,8 @@ def r5_register_frames(ctx, rule="C05.R5"):
     sw, regions = _arm_regions(prog, one, "::Instruction")
     unwinding = {}
     for v in ("Jump", "ResumeLabel", "ResumeNext", "Resume", "PopRet", "PushRet"):
-        names = _called_names(one.body, regions.get(v, ()))
-        pv = mir.Prov(one.body)
-        touches = False
-        for b, t in mir.region_calls(one.body, regions.get(v, ())):
-            for a in t["args"][:1]:
-                o = mir.strip_refs(pv.of_operand(a))
-                if o[0] == "field" and o[2] == "register_stack":
-                    touches = True
-            if mir.callee_path(t).endswith(("registers::pop_registers", "::register_stack")):
-                touches = True
-        unwinding[v] = touches
+        unwinding[v] = _touches_field(prog, one, regions.get(v, ()), "register_stack",
+                                      also=("registers::pop_registers", "::register_stack"))
     n = 0
     for fn in sorted(emit.generator_fns(prog), key=lambda f: f.id):
         evs = emit.events(prog, fn)
@@ -325,15 +335,7 @@ def r5_register_frames(ctx, rule="C05.R5"):
             if ("push", "PushAToValueStack") in kinds and any(k == "gen" or k == "BLOCK" for k, _i in kinds):
                 parks = True
     if parks:
-        vs = {}
-        for v in ("PopRet", "PushRet"):
-            touches = False
-            for b, t in mir.region_calls(one.body, regions.get(v, ())):
-                for a in t["args"][:1]:
-                    o = mir.strip_refs(mir.Prov(one.body).of_operand(a))
-                    if o[0] == "field" and o[2] == "value_stack":
-                        touches = True
-            vs[v] = touches
+        vs = {v: _touches_field(prog, one, regions.get(v, ()), "value_stack") for v in ("PopRet", "PushRet")}
         ctx.decide(vs["PopRet"] and vs["PushRet"], rule, rule + ":PopRet:restores-value-stack", one.loc,
                    "PushRet reads and PopRet restores the depth of value_stack",
                    "a construct parks a value on the value stack around user code (SELECT CASE), but leaving the "
